@@ -13,7 +13,8 @@ func init() {
 		Title: "Rolling back the latest change restores exactly the previous state",
 		Explanation: "Exact restoration is a value property over histories and is declined. Decided: (1) a rollback proposal is VALIDATED only when Configuration.Index equals the rolled-back index, the rolled-back proposal exists and is a change; each of the three refusing branches records FAILED with FORBIDDEN / NOT_FOUND / FORBIDDEN and validates nothing; " +
 			"(2) a rollback transaction whose target index is missing or is itself a rollback is FAILED (NOT_FOUND / FORBIDDEN) with Abort opened and creates no proposal; (3) on the change path every iteration over the change's values records the prior value (or a tombstone) under the value's own path, and RollbackIndex := Configuration.Index, RollbackValues := the captured map are written on the VALIDATED path only; " +
-			"(4) committing a change sets Configuration.Index to the own index, committing a rollback sets it to the captured RollbackIndex and merges the captured values; (5) capture domain = write domain: the collection iterated to capture prior values is the collection iterated to mutate Configuration.Values at commit.",
+			"(4) committing a change sets Configuration.Index to the own index, committing a rollback sets it to the captured RollbackIndex and merges the captured values; (5) capture domain = write domain: the collection iterated to capture prior values is the collection iterated to mutate Configuration.Values at commit." +
+			" Also: the applied values are recorded entry by entry, unconditionally (C06.8).",
 		Declined: []string{"that the restored configuration equals the previous one value for value", "the device side of a rollback"},
 		Run:      runC06,
 		Witness:  []WitnessTarget{{pkgProposalCtl, []string{"reconcileValidate", "reconcileCommit"}}, {pkgTransactionCtl, []string{"reconcileInitialize"}}},
